@@ -28,7 +28,7 @@ ASSUMPTIONS = [
     "XorEncoded containers carry the end-of-stub marker and a consistent size field, so detection is expected",
     "file objects are io.BytesIO or real files (read(n) returns n bytes unless EOF)",
 ]
-BOUNDS = {"quick": {"small_buffers": (7, 8, 9, 16, 64), "layer_b": "subset"}, "thorough": {"small_buffers": (7, 8, 9, 10, 15, 16, 17, 64), "layer_b": "full"}}
+BOUNDS = {"quick": {"small_buffers": (7, 8, 9, 16, 64), "layer_b": "subset"}, "thorough": {"small_buffers": (1, 2, 3, 5, 6, 7, 8, 9, 10, 13, 14, 15, 16, 17, 32, 64), "layer_b": "full"}}
 FILLERS = ("00", "ff", "41", "key", "lcg")
 
 
